@@ -575,7 +575,11 @@ func (fid *SrvFid) DecRef() {
 	verifPoint("fid.dec.zero", conn, fid)
 	conn.Lock()
 	verifPoint("@fid.unpool", conn, fid, conn.fidpool[fid.fid] == fid)
-	delete(conn.fidpool, fid.fid)
+	// only this fid's own entry: a request that found the fid while it was dying
+	// ends up here too, and the number may belong to a newer fid by then
+	if conn.fidpool[fid.fid] == fid {
+		delete(conn.fidpool, fid.fid)
+	}
 	conn.Unlock()
 
 	fid.destroy()
